@@ -11,30 +11,6 @@ open Exo (Sym)
 def Oracle.Sound (O : Oracle) (P : Val → Prop) : Prop :=
   ∀ e op c, O e op c = true → ∀ ρ, P ρ → op.holds (eval ρ e) c
 
-/-- the hypothesis `modulo_simplification` forgets to check (finding F2): whenever the oracle
-    answers `e < m` the expression is also non-negative -/
-def Oracle.ModNonNeg (O : Oracle) (P : Val → Prop) : Prop :=
-  ∀ e m, O e .lt m = true → ∀ ρ, P ρ → 0 ≤ eval ρ e
-
-/-- the repaired query: `e < m` is only answered when `0 <= e` is answered too -/
-def fixMod (O : Oracle) : Oracle := fun e op c =>
-  match op with
-  | .lt => O e .lt c && O e .ge 0
-  | .ge => O e .ge c
-
-theorem fixMod_sound (O : Oracle) (P : Val → Prop) (h : O.Sound P) : (fixMod O).Sound P := by
-  intro e op c ho ρ hρ
-  cases op with
-  | lt =>
-    simp only [fixMod, Bool.and_eq_true] at ho
-    exact h e .lt c ho.1 ρ hρ
-  | ge => exact h e .ge c ho ρ hρ
-
-theorem fixMod_modNonNeg (O : Oracle) (P : Val → Prop) (h : O.Sound P) : (fixMod O).ModNonNeg P := by
-  intro e m ho ρ hρ
-  simp only [fixMod, Bool.and_eq_true] at ho
-  exact h e .ge 0 ho.2 ρ hρ
-
 theorem between_sound (O : Oracle) (P : Val → Prop) (h : O.Sound P) (lo hi : Int) (e : Expr)
     (hb : O.between lo e hi = true) (ρ : Val) (hρ : P ρ) : lo ≤ eval ρ e ∧ eval ρ e < hi := by
   simp only [Oracle.between, Bool.and_eq_true] at hb
@@ -113,7 +89,7 @@ theorem divisionSimp_sound (O : Oracle) (P : Val → Prop) (hS : O.Sound P) (ρ 
         · cases h
           simp only [eval, evalOp, eval_gen, hnorm]
 
-theorem modSimp_sound (O : Oracle) (P : Val → Prop) (hS : O.Sound P) (hM : O.ModNonNeg P)
+theorem modSimp_sound (O : Oracle) (P : Val → Prop) (hS : O.Sound P)
     (ρ : Val) (hρ : P ρ) (lhs : Expr) (m : Int) (hm : 0 < m) (e' : Expr)
     (h : modSimp O lhs m = some e') : eval ρ e' = eval ρ lhs % m := by
   unfold modSimp at h
@@ -151,11 +127,9 @@ theorem modSimp_sound (O : Oracle) (P : Val → Prop) (hS : O.Sound P) (hM : O.M
         · subst hc'; rfl
       generalize hc' : (if c % m = 0 then 0 else c) = c' at h
       split at h
-      · rename_i hlt
+      · rename_i hb
         cases h
-        have h1 := hS _ .lt m hlt ρ hρ
-        have h0 := hM _ m hlt ρ hρ
-        simp only [Cmp.holds] at h1
+        have ⟨h0, h1⟩ := between_sound O P hS 0 m _ hb ρ hρ
         rw [← key _ hc'.symm, Int.emod_eq_of_lt h0 h1]
       · cases h
         simp only [eval, evalOp]
@@ -351,7 +325,7 @@ theorem normalForm_WF (e e' : Expr) (h : normalForm e = some e') : e'.WF := by
 
 /-! ### `index_start` and `map_e` -/
 
-theorem indexStart_sound_WF (O : Oracle) (P : Val → Prop) (hS : O.Sound P) (hM : O.ModNonNeg P)
+theorem indexStart_sound_WF (O : Oracle) (P : Val → Prop) (hS : O.Sound P)
     (ρ : Val) (hρ : P ρ) :
     ∀ (e e' : Expr), e.WF → indexStart O e = some e' → eval ρ e' = eval ρ e ∧ e'.WF := by
   intro e
@@ -409,7 +383,7 @@ theorem indexStart_sound_WF (O : Oracle) (P : Val → Prop) (hS : O.Sound P) (hM
               · simp only [Option.some.injEq] at h; subst h
                 exact ⟨hbin, mod_WF _ _ wl hd'⟩
               · refine ⟨?_, modSimp_WF O _ _ hd' _ h⟩
-                rw [modSimp_sound O P hS hM ρ hρ _ _ hd' _ h]
+                rw [modSimp_sound O P hS ρ hρ _ _ hd' _ h]
                 simp only [eval, evalOp, el, hrd]
           · cases h
         | add | sub | mul =>
@@ -423,21 +397,21 @@ theorem indexStart_sound_WF (O : Oracle) (P : Val → Prop) (hS : O.Sound P) (hM
         | _ => simp [Op.isArith] at *
       · cases h
 
-theorem normE_sound_WF (O : Oracle) (P : Val → Prop) (hS : O.Sound P) (hM : O.ModNonNeg P)
+theorem normE_sound_WF (O : Oracle) (P : Val → Prop) (hS : O.Sound P)
     (ρ : Val) (hρ : P ρ) :
     ∀ (e e' : Expr), e.WF → normE O e = some e' → eval ρ e' = eval ρ e ∧ e'.WF := by
   intro e
   induction e with
-  | var s => intro e' hw h; exact indexStart_sound_WF O P hS hM ρ hρ _ _ hw h
-  | const v => intro e' hw h; exact indexStart_sound_WF O P hS hM ρ hρ _ _ hw h
-  | usub a _ => intro e' hw h; exact indexStart_sound_WF O P hS hM ρ hρ _ _ hw h
+  | var s => intro e' hw h; exact indexStart_sound_WF O P hS ρ hρ _ _ hw h
+  | const v => intro e' hw h; exact indexStart_sound_WF O P hS ρ hρ _ _ hw h
+  | usub a _ => intro e' hw h; exact indexStart_sound_WF O P hS ρ hρ _ _ hw h
   | bconst b => intro e' hw h; simp only [normE, Option.some.injEq] at h; subst h; exact ⟨rfl, hw⟩
   | cfg c f => intro e' hw h; simp only [normE, Option.some.injEq] at h; subst h; exact ⟨rfl, hw⟩
   | bin op l r ihl ihr =>
     intro e' hw h
     simp only [normE] at h
     split at h
-    · exact indexStart_sound_WF O P hS hM ρ hρ _ _ hw h
+    · exact indexStart_sound_WF O P hS ρ hρ _ _ hw h
     · rename_i hop
       split at h
       · rename_i l' r' hl hr
